@@ -291,6 +291,8 @@ impl ClusterHandler for AdminCommHandler {
             let removed_fabric = state.failsafe.expire(
                 &mut state.fabrics,
                 &mut state.sessions,
+                #[cfg(feature = "case-resumption")]
+                &mut state.resumption,
                 expire_sess_id,
                 ctx.networks(),
                 ctx.kv(),
